@@ -27,7 +27,7 @@ def check(model, R, tier):
                     'max pooling pads with -inf and average pooling / convolution with 0, reducers over the full window; batch norm divides by sqrt(var + eps) with the biased variance; string-mode dispatch of Loss.reduction is exhaustive; '
                     'each layer hands its stored geometry / parameters to the functional op in the same role. Window layout, loss formulas and value equality with PyTorch are not decided.',
         assumptions=['the PyTorch output-length formula quoted in the property statement'],
-        technique='dominance-based geometry typestate + polynomial normal form + exhaustive-dispatch check + call-binding role comparison')
+        technique='partial evaluation over a shape-level domain (conv_tools, Loss dispatch) + dominance-based geometry typestate + call-binding role comparison')
 
 
 def check_layer_geom(model, R):
